@@ -36,7 +36,7 @@ func c20Canary(prefix string, i int) (value string, tokens []string) {
 func c20Doc(secrets, configs []c20Item) (string, types.Mapping) {
 	env := types.Mapping{}
 	var sb strings.Builder
-	sb.WriteString("services:\n  app:\n    image: img\n")
+	sb.WriteString("services:\n  app:\n    image: img\n    x-known: {a: 1, b: two}\n")
 	var refs []string
 	for i, s := range secrets {
 		if s.Ref {
@@ -117,6 +117,12 @@ func containsCanary(out string, value string, tokens []string) bool {
 	return strings.Contains(out, base64.StdEncoding.EncodeToString([]byte(value)))
 }
 
+// c20Known is a caller-registered type for the service extension x-known.
+type c20Known struct {
+	A int    `yaml:"a" json:"a"`
+	B string `yaml:"b" json:"b"`
+}
+
 func C20(c *core.Ctx) {
 	c.Assumption("TLC 1.8.0; spec/project/Secrets.tla; the whole rendered output is searched for two unique tokens of every canary and for its base64 form")
 	cfg := "SPECIFICATION Spec\nCONSTANTS MaxItems = 2\n MaxConfigs = 1\n MaxOps = 1\nINVARIANTS Laws\nCHECK_DEADLOCK FALSE\n"
@@ -160,7 +166,12 @@ func C20(c *core.Ctx) {
 			c.Report(core.Finding{Sig: sig, Detail: detail + " — scenario " + key, Replay: map[string]interface{}{"document": doc, "env": env, "ops": ops, "format": format, "withSecretContent": withContent}})
 		}
 		p, err := loader.LoadWithContext(context.Background(), types.ConfigDetails{WorkingDir: "/work", Environment: env,
-			ConfigFiles: []types.ConfigFile{{Filename: "/work/compose.yaml", Content: []byte(doc)}}}, func(o *loader.Options) { o.SetProjectName("proj", true) })
+			ConfigFiles: []types.ConfigFile{{Filename: "/work/compose.yaml", Content: []byte(doc)}}}, func(o *loader.Options) {
+			o.SetProjectName("proj", true)
+			if n%2 == 0 { // every other scenario with a caller-registered extension type (extensions are then bound to Go types)
+				o.KnownExtensions = map[string]any{"x-known": c20Known{}}
+			}
+		})
 		if err != nil {
 			fail("load-error", "scenario does not load: "+err.Error())
 			return nil
